@@ -381,4 +381,35 @@ def rule_timeout_ends(ctx):
     ctx.borrow(rule_end, {"C16.END": "C12.TIMEOUT"})
 
 
-RULES = [rule_fields, rule_detach, rule_replace, rule_tasks, rule_close, rule_file, rule_timeout_ends]
+def rule_open_factory(ctx):
+    p = ctx.p
+    ctx.rule("C12.OPEN", "path_io.open() only builds the file context (all I/O happens when the context is entered): the transfer workers call it between detaching the data "
+                         "stream and protecting it with `async with`, so it must not be able to fail - no backend overrides it, and the base implementation only constructs the context")
+    base = p.methods("AbstractPathIO").get("open")
+    if base is None:
+        raise AnalysisError("anchor=AbstractPathIO.open not found")
+    body = [s_ for s_ in base.body if not (isinstance(s_, ast.Expr) and isinstance(s_.value, ast.Constant))]
+    ok = len(body) == 1 and isinstance(body[0], ast.Return) and isinstance(body[0].value, ast.Call) and last_attr(body[0].value.func) == "AsyncPathIOContext" \
+        and not isinstance(base, ast.AsyncFunctionDef)
+    ctx.ob("C12.OPEN", base, "AbstractPathIO.open is `return AsyncPathIOContext(self, args, kwargs)`", ok,
+           "AbstractPathIO.open does more than constructing the context: it can fail after the worker detached the data connection and before the stream is protected",
+           construct="open:base does I/O")
+    for b in p.backends():
+        over = p.methods(b).get("open")
+        ctx.ob("C12.OPEN", over if over is not None else p.cls(b), f"{b} does not override open()", over is None,
+               f"{b} overrides the synchronous open() factory: a failure there (missing file) happens after the worker took the data connection out of the session and before "
+               "`async with stream, file` - nothing closes that socket any more (not even Server.close())", construct=f"open:{b} overrides")
+    w = p.wrapper_of("universal_exception") if ("pathio.py", "universal_exception") in p.module_funcs else None
+    if w is not None:
+        from .c13 import rule_univ
+        ctx.borrow(rule_univ, {"C13.UNIV": "C12.OPEN"}, only=lambda fn: "universal_exception" in fn)
+
+
+def rule_borrowed_r4(ctx):
+    from .c14 import rule_exit
+    ctx.rule("C12.EXIT", "leaving a data stream's context only closes it: __aexit__ waits for nothing (a wait for the peer to drain the buffer never ends when the peer is gone - "
+                         "the cancelled worker and Server.close() hang; shared with C14.EXIT)")
+    ctx.borrow(rule_exit, {"C14.EXIT": "C12.EXIT"})
+
+
+RULES = [rule_fields, rule_detach, rule_replace, rule_tasks, rule_close, rule_file, rule_timeout_ends, rule_open_factory, rule_borrowed_r4]
